@@ -17,6 +17,7 @@ LEVEL_TEXT = ("Real runs over all adapter kinds (regular, anchored, non-internal
               "length L' must equal int(L x rate) for every L up to the number of non-N adapter bases.")
 LEVEL_TEXT += ' Adapters for R2 only (with and without --revcomp); the per-adapter header lines of the full text report are compared with the tally.'
 LEVEL_TEXT += ' Adapters whose length times tolerance rounds down in double precision (49 x 1/49, 100 x 0.29, ...).'
+LEVEL_TEXT += ' Two adapters carrying one name keep separate statistics.'
 LEVEL_NOTE = ("Trusted base: the hooked match list (what was applied), the tally rules written from the guide/reference (removed length = rstop "
               "for 5' matches, len - rstart for 3' matches; adjacent base A/C/G/T else ''); on_reverse_complement must be the tally whenever --revcomp is on, null otherwise.")
 VARIANTS = {"quick": ["plain"], "thorough": ["plain"]}
